@@ -14,6 +14,8 @@ CONSTANTS
   MaxFaults = 2
   SubsInit = {FALSE}
   MaySubscribe = FALSE
+  RestoreReqs = {2}
+  Loose = FALSE
   Guarded = TRUE
 SYMMETRY Sym
 INVARIANT AtMostOneLink
